@@ -34,6 +34,10 @@ ASSUMPTIONS = [
     'else with rtol 1e-9 / atol 1e-12',
     'iteration order of set(self._reactant_index) in ParallelReaction.reduce is an external parameter recorded by the adapter',
     'one property package (8 chemicals); reset_chemicals, SeriesReaction, set slicing and ReactionSet.copy are not modelled',
+    'the agreement laws are evaluated for operands normalised on their reactant (true of everything the constructor '
+    'and the operations return); a left operand with empty stoichiometry and X != 0 (Reaction(\'\', ...)) is outside them',
+    'products of obj(feed) are observed through __call__ with the default feasibility check; when it refuses a negative '
+    'flow, as feed + conversion(feed)',
     'the model is written to the repaired behaviour of the defects in fixes_proposed/C17-1..5',
 ]
 TRUSTED = ['Lean 4.33 kernel', 'correspondence harness harness/props/c17.py + Driver/C17.lean',
@@ -63,8 +67,8 @@ def setup():
 
 
 def budget(tier):
-    return {'quick': dict(seconds=50, cases=480, shrink_s=15, search_s=5),
-            'thorough': dict(seconds=400, cases=8000, shrink_s=40, search_s=20)}[tier]
+    return {'quick': dict(seconds=60, cases=1200, shrink_s=15, search_s=5),
+            'thorough': dict(seconds=450, cases=20000, shrink_s=40, search_s=20)}[tier]
 
 
 def pkg_line():
